@@ -5,6 +5,9 @@ V = os.path.dirname(os.path.dirname(os.path.abspath(__file__)))
 for meta in sorted(glob.glob(os.path.join(V, "seeded", "*", "meta.json"))):
     seed = os.path.basename(os.path.dirname(meta))
     m = json.load(open(meta))
+    if "status_on_current_tree" in m:      # obsolete / equivalent on the current tree: keep the hand-written record
+        print(seed, "obsolete on current tree")
+        continue
     runs = m.get("runs", {})
     for log in sorted(glob.glob(os.path.join(V, ".cache", "seedruns", f"{seed}.C??.log"))):
         chk = log.split(".")[-2]
